@@ -78,6 +78,10 @@ func (r *ComDoc) ListDir(parent *DirEnt) ([]*DirEnt, error) {
 	if parent.Type != DirRoot && parent.Type != DirStorage {
 		return nil, errors.New("ListDir() on a non-directory object")
 	}
+	if parent.StorageRoot < 0 {
+		// empty storage
+		return nil, nil
+	}
 	top := &r.Files[parent.StorageRoot]
 	stack := []*DirEnt{top}
 	var files []*DirEnt
@@ -195,6 +199,7 @@ func (r *ComDoc) rebuildTree(parent int, files []int) {
 		tree.Insert(&r.Files[i])
 	}
 	nodes := tree.Nodes()
+	r.Files[parent].StorageRoot = -1
 	for _, n := range nodes {
 		e := n.Item.(*DirEnt)
 		if n == tree.Root {
